@@ -50,6 +50,7 @@ type HarnessSpec struct {
 	MaxSeconds     int               `json:"max_seconds"`
 	Natural        bool              `json:"natural_models"`
 	FPPrecise      bool              `json:"fp_precise"`
+	Preempt        bool              `json:"preempt_sends"`
 }
 
 type Job struct {
@@ -261,6 +262,7 @@ func runHarness(prog *ssa.Program, fn *ssa.Function, hs HarnessSpec, hr *Harness
 	e.injectFailures = hs.InjectFailures
 	e.natural = hs.Natural
 	e.fpPrecise = hs.FPPrecise
+	e.preempt = hs.Preempt
 	if hs.MaxSeconds > 0 {
 		e.deadline = time.Now().Add(time.Duration(hs.MaxSeconds) * time.Second)
 	}
